@@ -26,7 +26,7 @@ class Proof:
         self.results = []; self.status = None; self.seconds = 0.0; self.reason = ''
         self.canary_ok = None; self.cmds = []; self.replaced = []; self.log = ''; self.reach_bodies = []
     @property
-    def bounded(self): return 'unwind' in self.opts
+    def bounded(self): return 'unwind' in self.opts or 'fallback_unwind' in self.opts
     @property
     def name(self): return self.target
 
@@ -204,6 +204,8 @@ class Unit:
             for lp in fi.loops:
                 mac = 'LOOP_%s_%d' % (cname, lp['ordinal'])
                 out.append('#ifndef %s\n#define %s __CPROVER_loop_invariant(1 == 1) /* default: no loop contract in the sidecar -> havoc abstraction */\n#endif\n' % (mac, mac))
+                # bounded fallback (report.py): all loops of the unit WITHOUT contracts, unwound a fixed number of times instead
+                out.append('#ifdef VERIF_NO_LOOP_CONTRACTS\n#undef %s\n#define %s\n#endif\n' % (mac, mac))
         out += [s + '\n' for s in L.static_locals]
         lambdas = [fi for fi in L.fns.values() if fi.cname.startswith('lambda_')]
         for fi in lambdas: out.append(fi.text + '\n')
@@ -279,6 +281,8 @@ class Unit:
         if canary: cc.insert(1, '-DCANARY')
         for d in p.opts.get('define', '').split(','):
             if d: cc.insert(1, '-D' + d)
+        fb = p.opts.get('fallback_unwind')
+        if fb: cc.insert(1, '-DVERIF_NO_LOOP_CONTRACTS')
         r = subprocess.run(cc, capture_output=True, text=True)
         log = '$ ' + ' '.join(cc) + '\n' + r.stdout + r.stderr
         if r.returncode != 0:
@@ -294,10 +298,19 @@ class Unit:
         missing = sorted(f for f in reach if f not in bodies and f not in contracts and not f.startswith('__CPROVER') and f not in BUILTIN_OK)
         if missing:
             return 'UNDECIDED', 'callee(s) with neither body nor contract: ' + ', '.join(missing), [], log, 0.0
+        if fb:
+            # bounded stand-in: no loop contract is applied; every loop is unwound fb times BEFORE the contract instrumentation and
+            # executions that need more iterations are cut off by an assumption (no unwinding assertion): an under-approximation
+            gbu = os.path.join(self.dir, tag + '.u.gb')
+            ru = subprocess.run(['goto-instrument', '--unwind', str(fb), '--no-unwinding-assertions', gb1, gbu], capture_output=True, text=True)
+            log += '$ goto-instrument --unwind %s\n' % fb + ru.stdout[-1500:] + ru.stderr[-1500:]
+            if ru.returncode != 0:
+                return 'UNDECIDED', 'goto-instrument --unwind failed: ' + first_error(ru.stderr + ru.stdout), [], log, 0.0
+            gb1 = gbu
         gi = ['goto-instrument', '--dfcc', p.harness]
         if p.kind == 'enforce': gi += ['--enforce-contract-rec' if p.opts.get('rec') == '1' else '--enforce-contract', p.target]
         for c in replace: gi += ['--replace-call-with-contract', c]
-        gi += ['--apply-loop-contracts', gb1, gb2]
+        gi += ([] if fb else ['--apply-loop-contracts']) + [gb1, gb2]
         if not canary:
             p.replaced = replace
             p.reach_bodies = sorted(f for f in reach if f in bodies and f not in replace)
